@@ -15,12 +15,18 @@ def _alts(ids):
     return [L(i) if isinstance(i, str) else i for i in ids]
 
 
+def _dflt(default):
+    if isinstance(default, (tuple, list)):
+        return tuple(default)              # several defaults: only the first one counts (documented), the list is kept as given
+    return (default,) if default else ()
+
+
 def ccAny(ids, default=None, rid=None):
-    return C('Any', rid, _alts(ids), ('default', (default,) if default else ()))
+    return C('Any', rid, _alts(ids), ('default', _dflt(default)))
 
 
 def ccXor(ids, default=None, rid=None):
-    return C('Xor', rid, _alts(ids), ('default', (default,) if default else ()))
+    return C('Xor', rid, _alts(ids), ('default', _dflt(default)))
 
 
 # compound alternatives with explicit ids, so that several rules can refer to the SAME package (one shared object)
@@ -58,6 +64,11 @@ def rule_menu():
         ("ccXor(a,P|a)", ccXor(["a", P_PACK], "a")),
         ("ccAny(a,P,Q|a)", ccAny(["a", P_PACK, Q_PACK], "a")),
         ("z->P", C('Imply', None, [L("z"), P_PACK])),
+        # a default that drags a bundle of >=3 further selections with it (it must still beat the lighter alternatives)
+        ("c->All(x,y,z)", C('Imply', None, [L("c"), C('All', None, it("x", "y", "z"))])),
+        ("a->All(x,y,z,b)", C('Imply', None, [L("a"), C('All', None, it("x", "y", "z", "b"))])),
+        # several defaults, not in id order (the first one is the default; the list itself must survive serialisation as given)
+        ("ccXor(a,b,c|b,a)", ccXor("abc", ("b", "a"))), ("ccAny(a,b,c|c,a)", ccAny("abc", ("c", "a"))), ("ccXor(x,y|y,x)", ccXor("xy", ("y", "x"))),
         ("Any(P,Q)", C('Any', None, [P_PACK, Q_PACK])),
     ]
     return m
